@@ -12,7 +12,7 @@ if [ ! -x "$V/bin/rewrite" ] || [ "$V/rewrite/main.go" -nt "$V/bin/rewrite" ]; t
 fi
 "$V/bin/rewrite" -repo "$R" -out "$out" -stubdir "$V/engine/stubs" -adddir "$V/engine/overlay" \
   -hooks "$(tr '\n' ',' < "$V/engine/hooks.txt")" \
-  -vos internal/io/fs,internal/mapr,internal/ssh/client,internal/server/handlers,internal/io/prompt >"$out/rewrite.log" 2>&1 || { cat "$out/rewrite.log" >&2; exit 2; }
+  -vos internal/config,internal/io/fs,internal/mapr,internal/ssh/client,internal/server/handlers,internal/io/prompt >"$out/rewrite.log" 2>&1 || { cat "$out/rewrite.log" >&2; exit 2; }
 (cd "$V/engine" && go build -tags verif -overlay "$out/overlay.json" -o "$out/verifc" ./cmd/verifc) || exit 2
 # native binary: only the verif-tagged added files, no rewriting
 python3 - "$out" "$V" "$R" <<'PY'
